@@ -7,7 +7,6 @@ compared.  Signature of an event:
 
     <method>[:<argument / input-class pattern>]:<directed|undirected>:<differs|raises:<Exc>>
 """
-import itertools
 
 import numpy as np
 
@@ -53,11 +52,11 @@ META = dict(
         "(thorough) and every labelled directed graph with 2..3 (quick) / 2..4 "
         "(thorough) nodes, each with one seeded random positive link attribute "
         "(uniform reals or small-integer ties); a seeded density-swept sample of "
-        "the next size up (undirected 5 / directed 4 nodes quick: 160+256; "
-        "undirected 6 / directed 5 thorough: 4096+4096); the structured families of "
+        "the next size up (undirected 5 / directed 4 nodes quick: 320+512; "
+        "undirected 6 / directed 5 thorough: 8192+8192); the structured families of "
         "pvm.gen.graphs.families() plus their orientations; seeded G(n,p) and "
         "random connected graphs with 6..40 nodes over p in [0,1], directed and "
-        "undirected. For each graph every measure listed under 'measures' in the "
+        "undirected (320 quick / 8000 thorough). For each graph every measure listed under 'measures' in the "
         "notes is called on one fresh Network object and compared with the naive "
         "reference evaluated on the same adjacency matrix: exact equality for "
         "integer valued measures, |lib-ref| <= 1e-9*max(1,|ref|max) otherwise, "
@@ -80,14 +79,14 @@ META = dict(
         "sequence), so that an index or normalisation error would be visible."),
     floors={"quick": dict(
                 {"compared": 12000, "exhaustive_graphs": 130,
-                 "sampled_small_graphs": 130, "random_graphs": 50,
+                 "sampled_small_graphs": 250, "random_graphs": 100,
                  "family_graphs": 40, "weighted_compared": 3000,
                  "spectral_compared": 700, "randomwalk_compared": 200,
                  "nsi_relations": 2000, "oracle_selfcheck": 150},
                 **{f"m:{m}": 60 for m in METHODS}),
             "thorough": dict(
                 {"compared": 300000, "exhaustive_graphs": 5000,
-                 "sampled_small_graphs": 2500, "random_graphs": 1200,
+                 "sampled_small_graphs": 5000, "random_graphs": 2500,
                  "family_graphs": 40, "weighted_compared": 60000,
                  "spectral_compared": 15000, "randomwalk_compared": 5000,
                  "nsi_relations": 40000, "oracle_selfcheck": 3000},
@@ -622,7 +621,7 @@ def run(ctx):
                     ctx.count("exhaustive_graphs")
     # 1b. seeded samples of the next larger sizes ---------------------------------------
     ns_u, ns_d = nu + 1, nd + 1
-    cnt_u, cnt_d = (4096, 4096) if ctx.thorough else (160, 256)
+    cnt_u, cnt_d = (8192, 8192) if ctx.thorough else (320, 512)
     for j in range(cnt_u + cnt_d):
         idx += 1
         if not ctx.mine(idx):
@@ -660,7 +659,7 @@ def run(ctx):
                 check_graph(ctx, Network, B, d, cid, r)
                 ctx.count("family_graphs")
     # 3. random graphs ---------------------------------------------------------------------
-    cap = 4000 if ctx.thorough else 160
+    cap = 8000 if ctx.thorough else 320
     k = 0
     while k < cap:
         k += 1
@@ -674,7 +673,7 @@ def run(ctx):
             continue
         r = ctx.rng("rnd", k)
         d = bool(k % 3 == 0)
-        big = (k % 8 == 1)
+        big = (sum(divmod(k, 16)) % 8 == 1)   # spread over the shards
         if k % 2:
             A = G.random_graph(r, 21 if big else 6, 40 if big else 20, d)
         else:
